@@ -480,18 +480,18 @@ theorem tablesSent_of_jmpGoes {env : Env} {p : Program} {m : TableMap} {a : Term
     {σ σ₂ : State} {c c₂ : Nat} {j : Term Jmp} {u : Option Jmp} {t : Tid}
     (hg : m.get a.tid = some ta) (hmem : (j.term, u) ∈ jmpsWithUntaken a) (hok : jmpCfgOk p j.term = true)
     (hgo : JmpGoes env σ c j t σ₂ c₂) :
-    (tableAfterDefs ta a.term.defs ∈ tablesSent p m a t ∧ σ₂ = σ) ∨ ([] ∈ tablesSent p m a t) := by
+    (tableAfterDefs ta a.term.defs ∈ tablesSent p m a t ∧ σ₂ = σ ∧ c₂ = c) ∨ ([] ∈ tablesSent p m a t) := by
   simp only [tablesSent, List.mem_flatMap, hg, Option.map]
   unfold JmpGoes at hgo
   cases hj : j.term with
   | Branch tgt =>
     rw [hj] at hgo hmem
-    obtain ⟨rfl, rfl, _⟩ := hgo
-    exact .inl ⟨⟨_, hmem, by simp⟩, rfl⟩
+    obtain ⟨rfl, rfl, rfl⟩ := hgo
+    exact .inl ⟨⟨_, hmem, by simp⟩, rfl, rfl⟩
   | CBranch tgt cnd =>
     rw [hj] at hgo hmem
-    obtain ⟨rfl, rfl, _⟩ := hgo
-    exact .inl ⟨⟨_, hmem, by simp⟩, rfl⟩
+    obtain ⟨rfl, rfl, rfl, _⟩ := hgo
+    exact .inl ⟨⟨_, hmem, by simp⟩, rfl, rfl⟩
   | BranchInd e => rw [hj] at hgo; exact hgo.elim
   | Return e => rw [hj] at hgo; exact hgo.elim
   | Call callee r =>
@@ -593,7 +593,7 @@ theorem propagate_blockSim (env : Env) {ptr : Nat} (p₁ : Program) (m : TableMa
     have hjok := List.all_eq_true.mp hcb.2 j hjmem
     have hvafter : TableValid σ₁ (tableAfterDefs tb b.term.defs) :=
       tableAfterDefs_valid b.term.defs hσ hv hwst hwb.1 hdefs hd
-    rcases tablesSent_of_jmpGoes (p := p₁) (m := m) hg hu hjok hgo with ⟨hx, rfl⟩ | hx
+    rcases tablesSent_of_jmpGoes (p := p₁) (m := m) hg hu hjok hgo with ⟨hx, rfl, _⟩ | hx
     · rw [← hb₂t] at hx
       obtain ⟨tb₂, hg₂, hsub⟩ := hcl.sent b hbm b₂ hb₂m _ hx
       exact ⟨tb₂, hg₂, subsetOf_valid hsub hvafter⟩
